@@ -987,11 +987,49 @@ def _probe_object(kind):
 
         return _Probe(a=1, b=np.arange(6.0).reshape(2, 3), c="s", d=[1, 2, 3], e={"k": np.ones(2), "m": "x"}, f=torch.ones(2), g=2.5,
                       h=(1, "two", None), i={3, 4})
-    return _Probe(a=1, b=np.arange(4.0), c="s", d=[1, "x"])
+    return _Probe(a=1, b=np.arange(4.0), c="s", d=[1, "x"], e=None, _u=0, **{"__v": 7})
 
 
 def _attr_names(o):
     return {k for k in vars(o) if k not in (SKIPN, SKIPT)}
+
+
+def _value_mismatches(obj, loaded):
+    """Attributes whose reloaded value differs (plain scalars, strings, None, lists and arrays only - the full round trip is C01)."""
+    import numpy as np
+
+    bad = []
+    for k, v in vars(obj).items():
+        if not hasattr(loaded, k):
+            continue
+        w = getattr(loaded, k)
+        if isinstance(v, np.ndarray):
+            ok = isinstance(w, np.ndarray) and v.shape == w.shape and bool(np.array_equal(v, w))
+        elif v is None or isinstance(v, (bool, int, float, str)):
+            ok = v == w
+        elif isinstance(v, list) and all(x is None or isinstance(x, (bool, int, float, str)) for x in v):
+            ok = isinstance(w, list) and v == w
+        else:
+            continue
+        if not ok:
+            bad.append(k)
+    return bad
+
+
+def _root_attr_keys(p):
+    """Keys of the root group's attributes of a saved directory / archive (read without quantem)."""
+    import zipfile
+
+    try:
+        if os.path.isdir(p):
+            with open(os.path.join(p, "zarr.json")) as f:
+                meta = json.load(f)
+        else:
+            with zipfile.ZipFile(p) as z:
+                meta = json.loads(z.read("zarr.json"))
+        return set(meta.get("attributes", {}))
+    except Exception:  # noqa: BLE001
+        return set()
 
 
 class _Injector:
@@ -1177,6 +1215,11 @@ def rt_save(inp):
                 problems.append(("success-not-loadable", f"save returned normally but the target does not load: {lerr!r}"))
             elif _attr_names(loaded) != want:
                 problems.append(("success-incomplete", f"save returned normally but the target loads with attributes {sorted(_attr_names(loaded))}"))
+            elif _value_mismatches(obj, loaded):
+                problems.append(("success-incomplete", f"save returned normally but attributes {_value_mismatches(obj, loaded)} reload with different "
+                                                       f"contents (e.g. {getattr(loaded, _value_mismatches(obj, loaded)[0])!r})"))
+            elif not {SKIPN, SKIPT} <= _root_attr_keys(target):
+                problems.append(("success-without-skip-metadata", "save returned normally but the target's root attributes lack the skip lists"))
         # ---- expected refusals
         if exc is not None and not inj.fired and objkind != "unpicklable":
             exp_val = comp_bad or (not (existed and mode != "o") and (store not in ("auto", "zip", "dir") or (eff == "dir" and os.path.splitext(target)[1] != "")))
@@ -1378,8 +1421,9 @@ def _klass(inp, res):
 BOUNDED = [
     Bounded.from_rt("fault injection at every write position on the real save", rt_save, fam_save,
                     "exception raised at the k-th call of every fault site (serialize, zarr writes, skip metadata, zip open/write, makedirs, "
-                    "rmtree, remove, temp dir, zarr.group), both stores, modes w/o, target absent/file/dir/earlier save; one 4-attribute object "
-                    "(quick) / two objects incl. tensors and containers (thorough)", klass=_klass),
+                    "rmtree, remove, temp dir, zarr.group), both stores, modes w/o, target absent/file/dir/earlier save, refusals, an unpicklable "
+                    "attribute; quick: one 6-attribute object, every k for mode='o' over an earlier save and {first, second, middle, last} k elsewhere; "
+                    "thorough: every k everywhere, store='auto' too, a second object with tensors and containers", klass=_klass),
 ]
 
 TRUSTED = [
